@@ -827,10 +827,19 @@ pub fn main_for<P: Property>(p: P, opts: &Opts) -> i32 {
                             });
                             match res {
                                 Ok(()) => {}
-                                Err(TestError::Fail(_, case)) => {
+                                Err(TestError::Fail(reason, case)) => {
                                     cancel.store(true, Ordering::Relaxed);
                                     let out = run_case(&*p, &case);
-                                    found.lock().unwrap().push((shard, case, out.failures));
+                                    let mut failures = out.failures;
+                                    if failures.is_empty() {
+                                        // the shrunk case does not fail when run again: the oracle is not a pure function of the case
+                                        failures.push(Failure {
+                                            facet: "flaky".into(),
+                                            signature: format!("not-reproducible|{}", reason.message()),
+                                            detail: "a generated case failed once but passes when re-run".into(),
+                                        });
+                                    }
+                                    found.lock().unwrap().push((shard, case, failures));
                                     break;
                                 }
                                 Err(TestError::Abort(r)) => {
@@ -933,7 +942,10 @@ pub fn main_for<P: Property>(p: P, opts: &Opts) -> i32 {
     }
 
     if let Some(v) = violation {
-        let _ = &v.failures;
+        if v.failures.iter().all(|f| f.facet == "flaky") && !v.failures.is_empty() {
+            println!("INCONCLUSIVE property={} a failure did not reproduce on re-run (flaky check, not a violation); case saved at {}", id, v.replay.display());
+            return 2;
+        }
         println!("VIOLATION property={} replay={}", id, v.replay.display());
         return 1;
     }
